@@ -170,6 +170,9 @@ def gen(rng, tier):
         big = rng.random() < 0.3
         if big:     # plates of 9-30 experiments with the fractions whose float product rounds to an integer the exact product exceeds
             fr = rng.choice([0.1, 0.3, 0.7, 0.9, 0.05, 0.15, 0.35, 1 / 3, 0.1 + 1e-9, 0.2, 0.6, round(rng.random(), 2)])
+            if rng.random() < 0.4:      # just above / below j / size for a size that occurs: the ceiling moves by one within 1e-12 .. 1e-7
+                sz = rng.choice([9, 10, 10, 11, 20, 30])
+                fr = min(1.0, max(0.0, rng.randrange(1, sz) / sz + rng.choice([1e-9, 1e-7, 1e-12, -1e-9, 1e-9])))
         yield dict(kind=rng.choice(["holdout", "holdout", "holdout", "rholdout"]), fraction=fr,
                    screen=L.gen_screen(rng, style="big_plates") if big else L.gen_screen(rng), seed=rng.randrange(10 ** 6))
     for _ in range(25 * k):
